@@ -222,6 +222,14 @@ def run(chk):
         seen_k = {}
         for fn_, n in lits:
             ex = [f_["expr"] for f_ in n["fields"] if f_["member"] == "field_path_str"][0]
+            if ex.get("k") == "Path" and len(ex.get("segs", [])) == 1:
+                # field shorthand / a local: judge the initialiser of that local
+                def _pn(p_):
+                    p_ = p_.get("pat") if p_.get("k") == "PType" else p_
+                    return p_.get("name") if p_.get("k") == "PIdent" else None
+                ls = [st for st in walk(fn_.body) if st.get("k") == "Let" and _pn(st["pat"]) == ex["segs"][0] and st.get("init") is not None]
+                if len(ls) == 1:
+                    ex = ls[0]["init"]
             txt = render(ex).replace(" ", "")
             cfgk = fn_.cfg_feature() or "any"
             o = seen_k.get(cfgk, 0)
